@@ -29,7 +29,7 @@ func (w *World) signFor(ts *TxSpec, ctx sdk.Context) []byte {
 	if ts.Payer > 0 {
 		pAcc, pSeq = w.accNumSeq(ctx, AddrOf(w.Actors, ts.Payer-1))
 	}
-	bz, _, err := SignTx(w.Ref.App.TxConfig(), w.Actors, ts, accNum, seq, pAcc, pSeq)
+	bz, _, err := SignTxWith(w.Ref.App.TxConfig(), w.Actors, ts, accNum, seq, func(a sdk.AccAddress) (uint64, uint64) { return w.accNumSeq(ctx, a) }, pAcc, pSeq)
 	if err != nil {
 		return nil
 	}
